@@ -201,7 +201,21 @@ pub fn short_path(p: &str) -> String {
     p.to_string()
 }
 
+/// cut a message before the first Debug dump of a value (`Constructor(..` / `Struct {..`): the payload varies with the input
+fn cut_debug_payload(m: &str) -> &str {
+    let b = m.as_bytes();
+    for i in 0..b.len() {
+        if b[i] == b'(' || b[i] == b'{' {
+            let mut e = i; while e > 0 && b[e - 1] == b' ' { e -= 1; }
+            let mut st = e; while st > 0 && (b[st - 1].is_ascii_alphanumeric() || b[st - 1] == b'_') { st -= 1; }
+            if st < e && b[st].is_ascii_uppercase() && (b[i] == b'{' || e == i) { return &m[..e]; }
+        }
+    }
+    m
+}
+
 pub fn norm_msg(m: &str) -> String {
+    let m = cut_debug_payload(m);
     let mut out = String::new(); let mut prev_digit = false;
     for c in m.chars() {
         if c.is_ascii_digit() { if !prev_digit { out.push('N'); } prev_digit = true; }
